@@ -342,8 +342,13 @@ func runC20(c *fw.Case) {
 			recs = append(recs, []byte{})
 		case 4:
 			if r.Intn(6) == 0 {
-				// lengths whose varint needs three groups (>= 16384)
-				recs = append(recs, gen.Bytes(r, 16384+r.Intn(3000)))
+				// lengths whose varint needs three groups (>= 16384), every second time exactly at a group boundary
+				n := 16384 + r.Intn(3000)
+				if r.Intn(2) == 0 {
+					n = gen.Pick(r, 16383, 16384, 16385, 127, 128, 129)
+					c.Obs("record_lengths_exactly_at_a_varint_group_boundary", 1)
+				}
+				recs = append(recs, gen.Bytes(r, n))
 				c.Obs("three_group_lengths", 1)
 			} else {
 				recs = append(recs, gen.Payload(r, 5000))
